@@ -1,1 +1,501 @@
-(** Model/Merge.v — placeholder, to be written. *)
+(** Model/Merge.v — pypyr.context.Context.merge / Context.set_defaults over [val] trees.
+
+    Mirrors, function by function:
+      Context.merge.merge_recurse            -> [merge_item], [merge_items], [merge_rec]
+      Context.set_defaults.defaults_recurse  -> [defaults_item], [defaults_items], [defaults_rec]
+      types.are_all_this_type(T, cur, v)     -> the [match ev, v with ...] tables
+      pypyr.steps.contextmerge / default     -> [step_run]
+
+    What is threaded.  Python formats every incoming key and value against [self], the
+    WHOLE context as it is at that moment, while [current] is a (nested) dict object inside
+    it that is mutated in place.  So the model threads the whole root and addresses
+    [current] by a cursor: the path of formatted keys from the root.  Every write is an
+    in-place mutation of the container object found at a path ([obj_write]).
+
+    Object sharing.  A [val] tree cannot say that two paths hold the SAME Python object, yet
+    the formatter can hand back a context object by reference ([{k:ff}], [!py k]).  When such
+    a value is stored and a later incoming key formats to the same key, the in-place
+    mutation is visible through both paths.  The model tracks this as far as it can and
+    refuses the rest:
+      - one alias link (new path ~ top-level source key) is tracked exactly: in-place
+        mutations are mirrored to the other end;
+      - any other possible sharing sets [Tainted]; after that every in-place mutation of a
+        non-root object is [SUnsup] (outside the model), root-level assignments stay exact.
+    [s_sh s = NoShare] means no by-reference value has been stored so far.
+
+    Every function returns its state whatever the status, so an error half-way through
+    reports the partially merged context, as the real code leaves it. *)
+From PV Require Export Format.
+Open Scope string_scope.
+
+Definition path := list val.
+
+(** * Paths through nested mappings *)
+Fixpoint lookup_path (v : val) (p : path) : option val :=
+  match p with
+  | [] => Some v
+  | k :: r =>
+      match v with
+      | VDict d => match dict_get k d with Some x => lookup_path x r | None => None end
+      | _ => None
+      end
+  end.
+
+(** apply [f] to the value found at [p]; nothing happens when [p] does not exist *)
+Fixpoint update_at (v : val) (p : path) (f : val -> val) : val :=
+  match p with
+  | [] => f v
+  | k :: r =>
+      match v with
+      | VDict d =>
+          match dict_get k d with
+          | Some x => VDict (dict_set k (update_at x r f) d)
+          | None => v
+          end
+      | _ => v
+      end
+  end.
+
+Definition upd (root : dict) (p : path) (f : val -> val) : dict :=
+  match update_at (VDict root) p f with VDict d => d | _ => root end.
+
+(** Python [d[k] = x] on the dict object [v] *)
+Definition vdict_set (k x : val) (v : val) : val :=
+  match v with VDict d => VDict (dict_set k x d) | _ => v end.
+
+(** Python [l.extend(xs)] on the list object [v] *)
+Definition vlist_extend (xs : list val) (v : val) : val :=
+  match v with VList l => VList (l ++ xs)%list | _ => v end.
+
+Fixpoint strip_prefix (a p : path) : option path :=
+  match a, p with
+  | [], _ => Some p
+  | x :: a', y :: p' => if val_eqb x y then strip_prefix a' p' else None
+  | _ :: _, [] => None
+  end.
+
+Definition is_prefix (a p : path) : bool :=
+  match strip_prefix a p with Some _ => true | None => false end.
+
+(** * State *)
+Inductive status := SOk | SErr (name msg : string) | SUnsup.
+
+(** monotone: NoShare -> Linked _ -> Tainted *)
+Inductive sharing :=
+| NoShare                              (* no by-reference value stored so far *)
+| Linked (l : option (path * path))    (* at most one live alias: (new path, source path) *)
+| Tainted.                             (* sharing the tree model cannot follow *)
+
+Record st := mkst {
+  s_root : dict;          (* the whole context *)
+  s_tr : list path;       (* ghost: every path written so far, newest first *)
+  s_sh : sharing
+}.
+
+Definition out := (status * st)%type.
+
+Definition init (root : dict) : st := mkst root [] NoShare.
+
+Definition sh_link (sh : sharing) : option (path * path) :=
+  match sh with Linked l => l | _ => None end.
+Definition sh_taint (sh : sharing) : bool :=
+  match sh with Tainted => true | _ => false end.
+
+(** the other path under which the object at [a] is reachable *)
+Definition mirror (l : option (path * path)) (a : path) : option path :=
+  match l with
+  | None => None
+  | Some (u, v) =>
+      match strip_prefix u a with
+      | Some r => Some (v ++ r)%list
+      | None => match strip_prefix v a with Some r => Some (u ++ r)%list | None => None end
+      end
+  end.
+
+Definition under (prot : option path) (a : path) : bool :=
+  match prot with Some pp => is_prefix pp a | None => false end.
+
+(** in-place mutation [f] of the container object at path [a].
+    [prot]: path of an object that must not be mutated (the incoming mapping when it lives
+    inside the context, as in the steps) — doing so is outside the model. *)
+Definition obj_write (prot : option path) (s : st) (a : path) (f : val -> val) : option st :=
+  if sh_taint (s_sh s) && negb (is_nil a) then None
+  else if under prot a then None
+  else
+    let r1 := upd (s_root s) a f in
+    match mirror (sh_link (s_sh s)) a with
+    | Some b => if under prot b then None else Some (mkst (upd r1 b f) (s_tr s) (s_sh s))
+    | None => Some (mkst r1 (s_tr s) (s_sh s))
+    end.
+
+(** what storing a freshly formatted value introduces *)
+Inductive share := ShNone | ShLink (q : path) | ShTaint.
+
+Definition drop_link (sh : sharing) (w : path) : sharing :=
+  match sh with
+  | Linked (Some (u, v)) => if is_prefix w u || is_prefix w v then Linked None else sh
+  | _ => sh
+  end.
+
+(** [nested]: the object written into is not the root.  An untracked by-reference value may
+    be (or contain) that very object — a cyclic structure — so it is only accepted at root
+    level, where the written object (the context itself) cannot be referred to. *)
+Definition add_share (sh : sharing) (nested : bool) (w : path) (x : share) : option sharing :=
+  match x with
+  | ShNone => Some sh
+  | ShTaint => if nested then None else Some Tainted
+  | ShLink q =>
+      if is_prefix w q || is_prefix q w then None   (* self-assignment / cyclic structure *)
+      else match sh with
+           | NoShare | Linked None => Some (Linked (Some (w, q)))
+           | _ => Some Tainted
+           end
+  end.
+
+(** Python [current[k] = x] where [current] is the dict object at [a] *)
+Definition assign (prot : option path) (s : st) (a : path) (k x : val) (x_share : share) : out :=
+  let w := (a ++ [k])%list in
+  match obj_write prot s a (vdict_set k x) with
+  | None => (SUnsup, s)
+  | Some s1 =>
+      match add_share (drop_link (s_sh s1) w) (negb (is_nil a)) w x_share with
+      | None => (SUnsup, s)
+      | Some sh' => (SOk, mkst (s_root s1) (w :: s_tr s1) sh')
+      end
+  end.
+
+(** Python [current[k].extend(xs)]: the list object at [w] is mutated in place *)
+Definition extend (prot : option path) (s : st) (w : path) (xs : list val) (x_share : share) : out :=
+  match obj_write prot s w (vlist_extend xs) with
+  | None => (SUnsup, s)
+  | Some s1 =>
+      match add_share (s_sh s1) true w x_share with
+      | None => (SUnsup, s)
+      | Some sh' => (SOk, mkst (s_root s1) (w :: s_tr s1) sh')
+      end
+  end.
+
+(** * Which formatted values may be context objects handed back by reference *)
+Fixpoint has_ff (s : string) : bool :=
+  match s with
+  | EmptyString => false
+  | String c r =>
+      match r with
+      | String d _ => (Ascii.eqb c "f"%char && Ascii.eqb d "f"%char) || has_ff r
+      | EmptyString => false
+      end
+  end.
+
+Fixpoint mentions_name (e : pyexpr) : bool :=
+  let fix any (l : list pyexpr) : bool :=
+    match l with [] => false | x :: r => mentions_name x || any r end in
+  match e with
+  | EName _ => true
+  | EList l | ETuple l => any l
+  | ECmp _ a b | EAnd a b | EOr a b | EAdd a b | ESub a b | EMul a b | EIn a b | EIndex a b
+  | ELambdaCall _ a b | EListComp a _ b => mentions_name a || mentions_name b
+  | ENot a | ELen a | EWalrus _ a => mentions_name a
+  | _ => false
+  end.
+
+(** could formatting something that reaches [v] return an object by reference?
+    ([:ff] somewhere in a string, or a [!py] expression that reads a name) *)
+Fixpoint risky (v : val) : bool :=
+  let fix any (l : list val) : bool :=
+    match l with [] => false | x :: r => risky x || any r end in
+  let fix anyd (l : list (val * val)) : bool :=
+    match l with [] => false | (k, x) :: r => risky k || risky x || anyd r end in
+  match v with
+  | VStr s | VSic s | VBytes s => has_ff s
+  | VPy s e => has_ff s || mentions_name e
+  | VExn _ m _ => has_ff m
+  | VList l | VTuple l | VSet l => any l
+  | VDict l => anyd l
+  | VJsonify x => risky x
+  | _ => false
+  end.
+
+(** does the value contain a container that merge could later mutate in place? *)
+Fixpoint has_mut (v : val) : bool :=
+  let fix any (l : list val) : bool :=
+    match l with [] => false | x :: r => has_mut x || any r end in
+  match v with
+  | VList _ | VDict _ => true
+  | VTuple l => any l
+  | _ => false
+  end.
+
+Definition is_mut_top (v : val) : bool :=
+  match v with VList _ | VDict _ => true | _ => false end.
+
+(** [s] is exactly one expression with the flat spec and nothing else: the formatter
+    returns the referenced object itself ([_format_keep_type], [is_flat]) *)
+Definition flat_single (root : dict) (s : string) : option string :=
+  match parse s with
+  | ([(EmptyString, Some (name, spec, None))], PEnd) =>
+      match vformat_std root 2 spec with
+      | Ok spec' =>
+          let rs := mk_rspec spec' in
+          if r_flat rs && String.eqb (r_spec rs) "" then Some name else None
+      | _ => None
+      end
+  | _ => None
+  end.
+
+(** [x] is the result of formatting the str / special-tag leaf [v] against [root] *)
+Definition leaf_share (root : dict) (v x : val) : share :=
+  if negb (has_mut x) then ShNone
+  else
+    let fallback := if risky v || risky (VDict root) then ShTaint else ShNone in
+    match v with
+    | VStr s =>
+        match flat_single root s with
+        | Some name =>
+            let '(first, rest) := split_first name in
+            if String.eqb rest "" && is_mut_top x then ShLink [VStr first] else ShTaint
+        | None => fallback
+        end
+    | VPy _ (EName n) => if is_mut_top x then ShLink [VStr n] else ShTaint
+    | _ => fallback
+    end.
+
+Definition is_none_share (x : share) : bool := match x with ShNone => true | _ => false end.
+
+(** a container from the incoming tree: any leaf that may come back by reference *)
+Fixpoint tree_taint (ff : nat) (root : dict) (v : val) : bool :=
+  let fix any (l : list val) : bool :=
+    match l with [] => false | x :: r => tree_taint ff root x || any r end in
+  let fix anyd (l : list (val * val)) : bool :=
+    match l with [] => false | (k, x) :: r => tree_taint ff root k || tree_taint ff root x || anyd r end in
+  match v with
+  | VStr _ | VPy _ _ =>
+      match format_value ff root v with
+      | Ok x => negb (is_none_share (leaf_share root v x))
+      | _ => false
+      end
+  | VList l | VTuple l | VSet l => any l
+  | VDict l => anyd l
+  | _ => false
+  end.
+
+Definition tree_share (ff : nat) (root : dict) (v : val) : share :=
+  if tree_taint ff root v then ShTaint else ShNone.
+
+(** every dict key anywhere in [v] is of a kind whose hashing / equality is modelled *)
+Definition key_kind_ok (k : val) : bool :=
+  match k with VStr _ | VInt _ | VNone | VBytes _ => true | _ => false end.
+
+Fixpoint keys_ok (v : val) : bool :=
+  let fix all (l : list val) : bool :=
+    match l with [] => true | x :: r => keys_ok x && all r end in
+  let fix alld (l : list (val * val)) : bool :=
+    match l with [] => true | (k, x) :: r => key_kind_ok k && keys_ok x && alld r end in
+  match v with
+  | VList l | VTuple l | VSet l => all l
+  | VDict l => alld l
+  | VJsonify x => keys_ok x
+  | _ => true
+  end.
+
+(** * The merge *)
+Definition is_strtag (v : val) : bool :=
+  match v with VStr _ | VPy _ _ | VSic _ | VJsonify _ => true | _ => false end.
+
+Definition lift {A} (s : st) (r : res A) (k : A -> out) : out :=
+  match r with
+  | Ok a => k a
+  | Err n m => (SErr n m, s)
+  | Unsup => (SUnsup, s)
+  end.
+
+(** hashing the formatted key.  bool / float keys collide with ints in Python
+    ([True == 1 == 1.0]); that is not modelled. *)
+Definition key_check (s : st) (k : val) (cont : out) : out :=
+  match k with
+  | VStr _ | VInt _ | VNone | VBytes _ => cont
+  | VList _ | VDict _ | VSet _ =>
+      (SErr "TypeError" ("unhashable type: '" ++ type_name k ++ "'"), s)
+  | _ => (SUnsup, s)
+  end.
+
+Definition cur_dict (s : st) (a : path) : option dict :=
+  match lookup_path (VDict (s_root s)) a with
+  | Some (VDict d) => Some d
+  | _ => None
+  end.
+
+Section Merge.
+  Variable ff : nat.              (* fuel of the formatter *)
+  Variable prot : option path.    (* see [obj_write] *)
+
+  Definition fmt (s : st) (v : val) : res val := format_value ff (s_root s) v.
+
+  (** formatting an incoming VALUE: building a dict whose formatted key is unhashable (or a
+      bool / float key that python identifies with an int) is not modelled by Format.v *)
+  Definition fmtv (s : st) (v : val) : res val :=
+    match fmt s v with
+    | Ok x => if keys_ok x then Ok x else Unsup
+    | r => r
+    end.
+
+  Section Open.
+    (** the recursive call [merge_recurse(current[k], v)] / [defaults_recurse(...)] *)
+    Variable rec : st -> path -> dict -> out.
+
+    (** one iteration of [for k, v in add_me.items()] with [current] at path [a] *)
+    Definition merge_item (s : st) (a : path) (k v : val) : out :=
+      lift s (fmt s k) (fun kf =>
+      if is_strtag v then
+        (* str / special tag: overwrite, whatever is there *)
+        lift s (fmtv s v) (fun x =>
+        key_check s kf (assign prot s a kf x (leaf_share (s_root s) v x)))
+      else
+        match v with
+        | VBytes _ => key_check s kf (assign prot s a kf v ShNone)
+        | _ =>
+            key_check s kf
+              match cur_dict s a with
+              | None => (SUnsup, s)
+              | Some cur =>
+                  match dict_get kf cur with
+                  | Some ev =>
+                      match ev, v with
+                      | VDict _, VDict l => rec s (a ++ [kf])%list l
+                      | VList _, VList _ =>
+                          lift s (fmtv s v) (fun x =>
+                          match x with
+                          | VList xl => extend prot s (a ++ [kf])%list xl (tree_share ff (s_root s) v)
+                          | _ => (SUnsup, s)
+                          end)
+                      | VTuple el, VTuple _ =>
+                          lift s (fmtv s v) (fun x =>
+                          match x with
+                          | VTuple xl =>
+                              assign prot s a kf (VTuple (el ++ xl)%list) (tree_share ff (s_root s) v)
+                          | _ => (SUnsup, s)
+                          end)
+                      | VSet el, VSet _ =>
+                          lift s (fmtv s v) (fun x =>
+                          match x with
+                          | VSet xl =>
+                              match set_of_list (el ++ xl)%list with
+                              | Some u => assign prot s a kf (VSet u) ShNone
+                              | None => (SUnsup, s)
+                              end
+                          | _ => (SUnsup, s)
+                          end)
+                      | _, _ =>
+                          lift s (fmtv s v) (fun x =>
+                          assign prot s a kf x (tree_share ff (s_root s) v))
+                      end
+                  | None =>
+                      lift s (fmtv s v) (fun x =>
+                      assign prot s a kf x (tree_share ff (s_root s) v))
+                  end
+              end
+        end).
+
+    Fixpoint merge_items (s : st) (a : path) (items : dict) : out :=
+      match items with
+      | [] => (SOk, s)
+      | (k, v) :: rest =>
+          match merge_item s a k v with
+          | (SOk, s') => merge_items s' a rest
+          | o => o
+          end
+      end.
+
+    (** one iteration of [for k, v in defaults.items()] *)
+    Definition defaults_item (s : st) (a : path) (k v : val) : out :=
+      lift s (fmt s k) (fun kf =>
+      key_check s kf
+        match cur_dict s a with
+        | None => (SUnsup, s)
+        | Some cur =>
+            match dict_get kf cur with
+            | Some ev =>
+                match ev, v with
+                | VDict _, VDict l => rec s (a ++ [kf])%list l
+                | _, _ => (SOk, s)
+                end
+            | None =>
+                lift s (fmtv s v) (fun x =>
+                assign prot s a kf x
+                  (if is_strtag v then leaf_share (s_root s) v x else tree_share ff (s_root s) v))
+            end
+        end).
+
+    Fixpoint defaults_items (s : st) (a : path) (items : dict) : out :=
+      match items with
+      | [] => (SOk, s)
+      | (k, v) :: rest =>
+          match defaults_item s a k v with
+          | (SOk, s') => defaults_items s' a rest
+          | o => o
+          end
+      end.
+  End Open.
+
+  (** the knot: fuel = nesting depth of the incoming tree *)
+  Fixpoint merge_rec (fuel : nat) (s : st) (a : path) (items : dict) : out :=
+    match fuel with
+    | O => (SUnsup, s)
+    | S f => merge_items (merge_rec f) s a items
+    end.
+
+  Fixpoint defaults_rec (fuel : nat) (s : st) (a : path) (items : dict) : out :=
+    match fuel with
+    | O => (SUnsup, s)
+    | S f => defaults_items (defaults_rec f) s a items
+    end.
+End Merge.
+
+(** [Context(root).merge(add_me)] and [.set_defaults(defaults)] *)
+Definition merge_top (ff fuel : nat) (root : dict) (add_me : dict) : out :=
+  merge_rec ff None fuel (init root) [] add_me.
+
+Definition defaults_top (ff fuel : nat) (root : dict) (defaults : dict) : out :=
+  defaults_rec ff None fuel (init root) [] defaults.
+
+(** [pypyr.steps.contextmerge.run_step] / [pypyr.steps.default.run_step]: the incoming
+    mapping is [context[key]] — it lives INSIDE the context being merged into. *)
+Definition sized (v : val) : bool :=
+  match v with
+  | VStr _ | VBytes _ | VList _ | VTuple _ | VSet _ | VDict _ => true
+  | _ => false
+  end.
+
+Definition step_run (is_merge : bool) (ff fuel : nat) (root : dict) : out :=
+  let key := if is_merge then "contextMerge" else "defaults" in
+  match sget key root with
+  | Some (VDict items) =>
+      let o := (if is_merge then merge_rec else defaults_rec)
+                 ff (Some [VStr key]) fuel (init root) [] items in
+      match o with
+      | (SOk, s') =>
+          (* the step then logs len(context[key]) *)
+          match sget key (s_root s') with
+          | Some x => if sized x then o else (SUnsup, s')
+          | None => (SUnsup, s')
+          end
+      | _ => o
+      end
+  | _ => (SUnsup, init root)
+  end.
+
+(** * Comparing with an observation of the implementation *)
+Definition status_eqb (a b : status) : bool :=
+  match a, b with
+  | SOk, SOk => true
+  | SErr n m, SErr n' m' => String.eqb n n' && String.eqb m m'
+  | _, _ => false
+  end.
+
+Definition check_out (o : out) (exp : status) (exp_root : dict) : nat :=
+  match fst o with
+  | SUnsup => 2%nat
+  | stt => if status_eqb stt exp && dict_eqb (s_root (snd o)) exp_root then 0%nat else 1%nat
+  end.
+
+Definition is_unsup_out (o : out) : bool :=
+  match fst o with SUnsup => true | _ => false end.
